@@ -87,7 +87,7 @@ ProvideChecks(s, d, curveMint, minted, t) ==
         /\ t.S = s.S ++ minted /\ t.fee = s.fee>>,
      <<"C04.provide.mint=curve-mint", IsNum(curveMint) /\ minted = curveMint>>,
      <<"C04.ramp-untouched", SameRamp(s, t)>> >>
-  \o MintChecks("C04", "", minted, s.S, DOf(s.res, amp), DOf(t.res, amp), N(16) ++ Lop(s.res, t.res))
+  \o MintChecks("C04", "", minted, s.S, DOf(s.res, amp), DOf(t.res, amp), N(16) ++ Lop(s.res, s.res), N(16) ++ Lop(t.res, t.res))
 
 \* ---- withdrawal -------------------------------------------------------------------------------------------------
 WithdrawChecks(s, amt, t) ==
@@ -107,6 +107,23 @@ CollectChecks(s, t) ==
      <<"C04.collect.each-owed-fee-is-paid-in-full-or-kept",
         \A n \in Idx : (t.fee[n] = Zero \/ t.fee[n] = s.fee[n]) /\ t.bal[n] = s.bal[n] -- (s.fee[n] -- t.fee[n])>>,
      <<"C04.ramp-untouched", SameRamp(s, t)>> >>
+
+\* ---- fee ledgers of the trio (C07): pending = charged - sent; all-time counters only grow; burns leave circulation ----
+LedgerChecks(s, t) ==
+  << <<"C07.trio.pending-ledger=charged-sent",
+        \A n \in Idx : /\ s.feeAll[n] \preceq t.feeAll[n] /\ s.col[n] \preceq t.col[n]
+                        /\ (s.fee[n] ++ (t.feeAll[n] -- s.feeAll[n])) = (t.fee[n] ++ (t.col[n] -- s.col[n]))>>,
+     <<"C07.trio.alltime-counters-only-grow", \A n \in Idx : s.feeAll[n] \preceq t.feeAll[n] /\ s.burned[n] \preceq t.burned[n]>>,
+     <<"C07.trio.burned-amounts-leave-circulation",
+        \A n \in Idx : t.circ[n] \preceq s.circ[n] /\ (s.circ[n] -- t.circ[n]) = (t.burned[n] -- s.burned[n])>> >>
+SwapLedgerChecks(s, j, o, t) ==
+  << <<"C07.trio.swap-charges-are-recorded",
+        /\ t.feeAll[j] = s.feeAll[j] ++ o.pf /\ t.burned[j] = s.burned[j] ++ o.bf
+        /\ \A n \in Idx \ {j} : t.feeAll[n] = s.feeAll[n] /\ t.burned[n] = s.burned[n]>> >>
+CollectLedgerChecks(s, t) ==
+  << <<"C07.trio.collect-pays-exactly-the-pending-amounts-to-the-collector",
+        \A n \in Idx : t.col[n] = s.col[n] ++ (s.fee[n] -- t.fee[n]) /\ t.feeAll[n] = s.feeAll[n]>>,
+     <<"C07.trio.collect-leaves-reserves-alone", t.res = s.res /\ t.S = s.S>> >>
 
 Untouched(s, t) == << <<"C04.rejected-or-unrelated.pool-and-ramp-unchanged", SamePool(s, t) /\ SameRamp(s, t)>> >>
 =============================================================================
